@@ -183,6 +183,84 @@ def subRange (axes : List Nat) (t1 t2 : Key) (h : Hist) : Hist :=
   h.foldl (fun s kv =>
     if keyLe (project axes t1) (project axes kv.1) && keyLe (project axes kv.1) (project axes t2) then s.add kv.1 kv.2 else s) []
 
+/-! ### key queries of the histogram class: equals, min_key, max_key, nearest_key, sorted_keys, key_from_pixel / key_from_tuple,
+    is_tuple_compatible.  The C++ iterates the unordered_map in an unspecified order; the model iterates the association list in
+    its own order and the theorems (Props) characterise every result independently of that order. -/
+
+/-- `std::tuple::operator<` (lexicographic, strict); `a <= b` on tuples is `!(b < a)` -/
+def keyLt : Key → Key → Bool
+  | a :: as, b :: bs => if a < b then true else if b < a then false else keyLt as bs
+  | _, _ => false
+
+/-- `base_t::find(k)` / `at(k)` -/
+def Hist.find? (h : Hist) (k : Key) : Option Nat :=
+  match h with
+  | [] => none
+  | (k', c) :: rest => if k' = k then some c else Hist.find? rest k
+
+/-- `histogram::equals(other)`: `check` starts as "same dimension"; every entry of OTHER must be present in *this with the same
+    count (entries of *this that OTHER lacks are never looked at: the test is one-sided, as coded) -/
+def equalsStep (h o : Hist) (check : Bool) (v : Key × Nat) : Bool :=
+  match h.find? v.1 with
+  | some c => check && (c == o.get v.1)       -- check & (at(key) == otherhist.at(v.first))
+  | none => false
+def equalsH (sameDim : Bool) (h o : Hist) : Bool := o.foldl (equalsStep h o) sameDim
+
+/-- `histogram::min_key()` (std::tuple `<`); the C++ dereferences begin(): an empty histogram is outside its contract (model: []) -/
+def minKey : Hist → Key
+  | [] => []
+  | kv :: rest => (kv :: rest).foldl (fun m v => if keyLt v.1 m then v.1 else m) kv.1
+
+/-- `histogram::max_key()` -/
+def maxKey : Hist → Key
+  | [] => []
+  | kv :: rest => (kv :: rest).foldl (fun m v => if keyLt m v.1 then v.1 else m) kv.1
+
+/-- one step of the `for_each` of nearest_key; state = (once, nearest_k) -/
+def nearestStep (k : Key) (s : Bool × Key) (v : Key × Nat) : Bool × Key :=
+  if !keyLt k v.1 then                                   -- v.first <= k
+    (if s.1 then (false, v.1) else if keyLt s.2 v.1 then (false, v.1) else s)
+  else s
+
+/-- `histogram::nearest_key(k)`: k itself when present, otherwise the greatest key not above k (k again when there is none) -/
+def nearestKey (h : Hist) (k : Key) : Key :=
+  if (h.find? k).isSome then k else (h.foldl (nearestStep k) (true, k)).2
+
+/-- `histogram::sorted_keys()` -/
+def sortedKeys (h : Hist) : List Key := (sortHist h).map (·.1)
+
+/-- merging: `dst[k] += c` for every bin of `src` (what `sub_histogram` does into a fresh histogram and what an accumulating
+    fill amounts to, theorem C19_fill_accumulate_is_merge) -/
+def merge (dst src : Hist) : Hist := src.foldl (fun s kv => s.add kv.1 kv.2) dst
+
+/-- key component types of the harness (`histogram<unsigned char, short, int>`) -/
+inductive KTy where
+  | u8 | i16 | i32
+  deriving DecidableEq, Repr
+
+def KTy.bits : KTy → Nat
+  | .u8 => 8 | .i16 => 16 | .i32 => 32
+def KTy.lo : KTy → Int
+  | .u8 => 0 | .i16 => -32768 | .i32 => -2147483648
+def KTy.hi : KTy → Int
+  | .u8 => 255 | .i16 => 32767 | .i32 => 2147483647
+
+/-- `static_cast<T>(x)` of make_histogram_key (modular conversion) -/
+def KTy.cast : KTy → Int → Int
+  | .u8, x => x % 256
+  | .i16, x => (x + 32768) % 65536 - 32768
+  | .i32, x => (x + 2147483648) % 4294967296 - 2147483648
+
+/-- `key_from_pixel<Dimensions...>(p)` / `key_from_tuple<Dimensions...>(t)`: the selected components (the first `dimension()`
+    ones when no selection is given), each cast to the key type of its axis -/
+def keyFromPixel (tys : List KTy) (sel : List Nat) (px : List Int) : Key :=
+  let chosen := if sel.isEmpty then px.take tys.length else sel.map (fun i => px.getD i 0)
+  (tys.zip chosen).map fun tc => tc.1.cast tc.2
+
+/-- `is_tuple_compatible(t)`: same size and (for the common prefix) every key type convertible to the tuple's element type -/
+def isTupleCompatible (dim : Nat) (convertible : List Bool) : Bool :=
+  if convertible.length == dim then (convertible.take dim).all id else false
+
 /-! ### std containers -/
 
 /-- `fill_histogram(view, std::vector<T>&)` on a gray view (`old` = [] when not accumulating): the vector grows to max+1
